@@ -346,6 +346,8 @@ func Known(fid string) bool {
 
 // Catch runs f and turns a panic into an error carrying the stack.
 func Catch(f func() error) (err error) {
+	CleanWork()
+	defer CleanWork()
 	defer func() {
 		if r := recover(); r != nil {
 			err = fmt.Errorf("panic: %v\n%s", r, trimStack(debug.Stack()))
